@@ -2,6 +2,7 @@ package internal
 
 import (
 	"strings"
+	"sync"
 
 	"github.com/zeromicro/go-zero/core/discov"
 	"github.com/zeromicro/go-zero/core/logx"
@@ -21,7 +22,13 @@ func (b *discovBuilder) Build(target resolver.Target, cc resolver.ClientConn, _ 
 		return nil, err
 	}
 
+	// update runs on Build's goroutine and on the watch goroutine: serialize reading the values and publishing
+	// them, otherwise a stale list read earlier can be published after a fresher one
+	var lock sync.Mutex
 	update := func() {
+		lock.Lock()
+		defer lock.Unlock()
+
 		vals := subset(sub.Values(), subsetSize)
 		addrs := make([]resolver.Address, 0, len(vals))
 		for _, val := range vals {
